@@ -601,6 +601,26 @@ def run_family(res, prop, prop_mod, cases, dcases=None, spec_on_streams=True, ru
         res.violation("%s:total:%s" % (prop, outs[i].get("why") or "panic"),
                       "the real reader panicked, stalled or stopped for the wrong reason", {"input": inputs[i], "real": outs[i]})
         found = True
+    # accounting oracle on the real output (C09): the messages the reader
+    # delivered must be those of the accounting loop run over the real
+    # detectOneMsg (adjacent, ordered, non-empty runs; carry-over only on w=0)
+    def norm(ms):
+        return [re.sub(r'^C \[.*\]$', lambda m: "C len=%d" % len(m.group(0).split()), x) for x in ms]
+    bad_acc = []
+    for i, (c, o) in enumerate(zip(cases, routs)):
+        if o["why"] not in ("err", "cancel"):
+            continue
+        real, refm = norm(o.get("msgs") or []), norm(o.get("ref") or [])
+        if o["why"] == "err" and real != refm:
+            bad_acc.append(i)
+        elif o["why"] == "cancel" and real != refm[:len(real)]:
+            bad_acc.append(i)
+    res.oblige("Spec on real output: delivered messages = adjacent, ordered, non-empty runs of the input (accounting loop over the real detectOneMsg)",
+               not bad_acc, [(cases[i]["chunks"][:3], routs[i].get("msgs", [])[:5], routs[i].get("ref", [])[:5]) for i in bad_acc[:2]])
+    for i in bad_acc[:1]:
+        res.violation("%s:accounting" % prop, "the real reader lost, repeated or re-ordered input bytes: its messages differ from the adjacent-run accounting of the same reads",
+                      {"chunks": cases[i]["chunks"], "real": routs[i].get("msgs"), "accounting": routs[i].get("ref"), "widths": routs[i].get("ref_w")})
+        found = True
     if real_oracle:
         bad = []
         for i, (c, o) in enumerate(zip(cases, routs)):
@@ -648,3 +668,34 @@ def shrink_stream(prop, case, out):
         else:
             i += 1
     return best
+
+
+def replay_family(res, prop, prop_mod, path, **kw):
+    """./check Cxx --replay file: re-run exactly the recorded input against /repo."""
+    d = json.load(open(path))
+    cases, dcases = [], []
+    inp = d.get("input")
+    if d.get("chunks") is not None:
+        evs = [tuple(e) for e in d["events"]] if d.get("events") else None
+        cases.append({"evs": evs, "chunks": d["chunks"], "err": "eof", "cancel": -1, "tag": "replay"})
+    elif inp and inp.get("op") == "read":
+        cases.append({"evs": None, "chunks": inp["chunks"], "err": inp.get("err", "eof"), "cancel": inp.get("cancel", -1), "tag": "replay"})
+    elif inp and inp.get("op") == "detect":
+        dcases.append({"b": inp["b"], "more": inp.get("more", False), "tag": "replay"})
+    for m in d.get("mismatching_inputs", []):
+        if m.get("op") == "read":
+            cases.append({"evs": None, "chunks": m["chunks"], "err": m.get("err", "eof"), "cancel": m.get("cancel", -1), "tag": "replay"})
+        elif m.get("op") == "detect":
+            dcases.append({"b": m["b"], "more": m.get("more", False), "tag": "replay"})
+    if not cases and not dcases:
+        raise C.Fail("replay file has no input: " + path)
+    global load_corpus
+    saved = load_corpus
+    load_corpus = lambda prop: []   # noqa: E731
+    try:
+        rc = run_family(res, prop, prop_mod, cases, dcases, rule="replay of " + os.path.basename(path), **kw)
+    finally:
+        load_corpus = saved
+    ev = json.load(open(os.path.join(C.EVID, prop + ".json")))
+    print(json.dumps(ev["coverage"]["samples"], indent=1)[:3000])
+    return rc
